@@ -63,7 +63,7 @@ type Program struct {
 	Fns    []*ssa.Function
 	LibFns []*ssa.Function // Fns minus cmd/...
 
-	homes map[*ssa.Function]homeSite // single call sites (helpers.go)
+	homes  map[*ssa.Function]homeSite // single call sites (helpers.go)
 	byName map[string]*ssa.Function
 
 	cg *callgraph.Graph
